@@ -734,6 +734,12 @@ pub fn factory_micro(which: &str) -> Vec<FScn> {
             v.push(s);
         }
     }
+    if all || which == "stickyq" {
+        // two jobs of one key wait in the factory queue; the second must follow the first to its worker
+        let mut s = base_scn(Routing::Sticky, 2);
+        s.clients = vec![vec![subs(1, 1, Beh::Ok, 20), subs(2, 2, Beh::Ok, 30), subs(3, 3, Beh::Ok, 40), subs(4, 3, Beh::Ok, 10), subs(5, 3, Beh::Ok, 0)]];
+        v.push(s);
+    }
     if all || which == "drainrepl" {
         // DESIGN §6 item 3: a draining slot's worker dies
         let mut s = base_scn(Routing::Queuer, 2);
